@@ -167,6 +167,7 @@ func (co *compiler) literalPrefix() (prefix []byte, allLiteral bool) {
 			if i != len(co.prog)-2 { // immediately before final opDoneSave1
 				return prefix, false
 			}
+			co.rightAnchor = true // even if followed by e.g. (?-i) in the source
 		case opDoneSave1:
 			return prefix, allLiteral
 		default:
